@@ -77,6 +77,13 @@ def sparse_records(rng, D, n, ids="unique"):
         nmin, nmax = (0, 0) if r < 0.05 else ((1, 1) if r < 0.35 else (2, 5))
         rec = R.record(rng, D, nmin=nmin, nmax=nmax, single_valued=SINGLE)
         rec["featuretype"] = rng.choice(GTF_TYPES if gtf else GFF_TYPES)
+        if gtf and rec["featuretype"] == "exon":
+            # GTF: an exon names both its transcript and its gene (the format requires it; extent
+            # inference over an exon that names only one of them is outside every property)
+            have = [k for k, _ in rec["attrs"]]
+            for must in ("gene_id", "transcript_id"):
+                if must not in have:
+                    rec["attrs"].append([must, ["x"]])
         recs.append(rec)
     assign_ids(rng, recs, gtf, ids)
     return recs
